@@ -516,6 +516,11 @@ def gen_top(rnd):
         xs = xs + np.concatenate([[0.0], np.cumsum([rnd.choice([0.0, 0.01, 0.02]) for _ in range(len(xs) - 1)])])
     if rnd.random() < 0.3:
         xr = [v + rnd.choice([-0.05, 0.03, 0.0]) for v in xr]
+    if rnd.random() < 0.2:
+        # time axes of real measurements: UNIX-epoch seconds with 5-minute (or hourly) bins - large |x| relative to the step
+        step = rnd.choice([300.0, 3600.0])
+        xs = 1.7e9 + step * xs
+        xr = [1.7e9 + step * v for v in xr]
     ys = np.array([float(rnd.randint(-6, 6)) / 2 for _ in xs])
     if rnd.random() < 0.25:          # integer-valued data with an integer dtype (every finite y)
         ys = np.array([rnd.randint(-6, 6) for _ in xs])
